@@ -102,6 +102,8 @@ pub fn show_set(set: &Value) -> Value {
 pub struct Fails {
 	pub list: Vec<Value>,
 	pub checks: u64,
+	/// observations to be judged by TLC (trace validation)
+	pub obs: Vec<Value>,
 }
 
 impl Fails {
